@@ -153,10 +153,16 @@ class Gamma(object):
         return {"doc": doc, "params": params, "ret": ret}
 
 
+STRIP_DEFAULTS = [False]
+
+
 def canon_doc(s):
-    """descriptions are compared up to whitespace and a terminal full stop"""
+    """descriptions are compared up to whitespace and a terminal full stop (and, when the configuration asked for the
+    default to be documented in prose, up to that trailing 'Defaults to ...' sentence)"""
     if s is None or s == "<<absent>>":
         return ""
+    if STRIP_DEFAULTS[0]:
+        s = re.sub(r"[.]?\s*Defaults to .*$", "", s, flags=re.S)
     s = re.sub(r"\s+", " ", s).strip()
     if s.endswith("."):
         s = s[:-1].rstrip()
@@ -168,8 +174,16 @@ def same_default(real_enc, value):
     return real_enc == [type(value).__name__, repr(value)]
 
 
-def compare(real, exp):
+def compare(real, exp, strip_defaults=False):
     """real = real.plain(ir); exp = Gamma.expected(...) -> list of (where, what) differences (empty = equal)"""
+    STRIP_DEFAULTS[0] = strip_defaults
+    try:
+        return _compare(real, exp)
+    finally:
+        STRIP_DEFAULTS[0] = False
+
+
+def _compare(real, exp):
     diffs = []
     if exp["doc"] is not None and canon_doc(real["doc"]) != canon_doc(exp["doc"]):
         diffs.append(("doc", "interface description {!r} != {!r}".format(real["doc"], exp["doc"])))
